@@ -10,21 +10,6 @@ open NeoModel.Mpt
 
 /-! ### one block = a list of sub-operations -/
 
-def subEvs (t : Node) : SubOp → Evs
-  | .put k v => putEv t k v
-  | .del k => deleteEv t k
-  | .batch m => putBatchTopEv t (mapToBatch m)
-
-def subTrie (t : Node) : SubOp → Node
-  | .put k v => put t k v
-  | .del k => delete t k
-  | .batch m => putBatch t (mapToBatch m)
-
-/-- all events of a block, in program order. -/
-def blockEvs : Node → List SubOp → Evs
-  | _, [] => []
-  | t, o :: r => subEvs t o ++ blockEvs (subTrie t o) r
-
 theorem applyEvs_append (H : Bytes → Bytes) (m : RcMap) (a b : Evs) :
     applyEvs H m (a ++ b) = applyEvs H (applyEvs H m a) b := by
   simp [applyEvs, List.foldl_append]
@@ -311,10 +296,12 @@ theorem commit_inv (H : Bytes → Bytes) (mode : Mode) (hrc : mode.rc = true) (t
     (idx : Nat) (ops : List SubOp) (hinv : Inv H mode top s) (hh : ∀ h, top = some h → h < idx) :
     ∃ s', commit H s idx ops = some s' ∧ Inv H mode (some idx) s' ∧
       s'.root = trieAfter s.root ops ∧ s'.hist = (idx, trieAfter s.root ops) :: s.hist ∧ s'.gcAt = s.gcAt ∧
-      (∀ k, CellMove mode idx (sget s.store k) (sget s'.store k)) := by
+      (∀ k, CellMove mode idx (sget s.store k) (sget s'.store k)) ∧
+      (∀ k, ctag (sget s'.store k) = if net (hP H k) (blockEvs s.root ops) = 0 then ctag (sget s.store k)
+        else tagAfter mode idx (occH H (trieAfter s.root ops) k)) := by
   have hocc : ∀ h, (occH H (trieAfter s.root ops) h : Int) = occH H s.root h + net (hP H h) (blockEvs s.root ops) :=
     fun h => occ_block (hP H h) ops s.root
-  obtain ⟨m', st', hf, hg', hx', hmv⟩ :=
+  obtain ⟨m', st', hf, hg', hx', hmv, htag⟩ :=
     flush_exact H mode hrc idx s.rc s.store s.root (trieAfter s.root ops) (blockEvs s.root ops)
       hinv.good hinv.exact hocc
   have hcomp : compute H s idx ops = some (trieAfter s.root ops, m', st') := by
@@ -322,7 +309,7 @@ theorem commit_inv (H : Bytes → Bytes) (mode : Mode) (hrc : mode.rc = true) (t
   refine ⟨{ s with root := trieAfter s.root ops, rc := m', store := st',
                     roots := (idx, rootHash H (trieAfter s.root ops)) :: s.roots,
                     hist := (idx, trieAfter s.root ops) :: s.hist },
-    by simp only [commit, hcomp], ?_, rfl, rfl, rfl, hmv⟩
+    by simp only [commit, hcomp], ?_, rfl, rfl, rfl, hmv, htag⟩
   refine ⟨hinv.mode_eq, hg', hx', nd_flush mode idx _ _ _ _ hinv.nd hf, ?_, ?_⟩
   · intro e he
     simp only [List.mem_cons] at he
@@ -364,29 +351,5 @@ theorem reset_inv (H : Bytes → Bytes) (mode : Mode) (top : Option Nat) (s : St
   nd := hinv.nd
   tops := hinv.tops
   kept := hinv.kept
-
-/-- C11.2/3: by induction over the history — blocks with strictly increasing heights, collections at
-any height, restarts — `Flush` never panics and the invariant holds at the end. -/
-theorem run_inv (H : Bytes → Bytes) (mode : Mode) (hrc : mode.rc = true) (ops : List Op) :
-    ∀ (top : Option Nat) (s : St), Inv H mode top s → Heights top ops →
-      ∃ s' top', runOps H s ops = some s' ∧ Inv H mode top' s' := by
-  induction ops with
-  | nil => intro top s hinv _; exact ⟨s, top, rfl, hinv⟩
-  | cons o r ih =>
-    intro top s hinv hh
-    cases o with
-    | block idx bops =>
-      simp only [Heights] at hh
-      obtain ⟨s1, hc, hinv1, _⟩ := commit_inv H mode hrc top s idx bops hinv hh.1
-      obtain ⟨s', top', hr, hinv'⟩ := ih (some idx) s1 hinv1 hh.2
-      exact ⟨s', top', by simp only [runOps, stepOp, hc, hr], hinv'⟩
-    | gc g =>
-      simp only [Heights] at hh
-      obtain ⟨s', top', hr, hinv'⟩ := ih top (gcSt s g) (gc_inv H mode top s g hinv) hh
-      exact ⟨s', top', by simp only [runOps, stepOp, hr], hinv'⟩
-    | reset =>
-      simp only [Heights] at hh
-      obtain ⟨s', top', hr, hinv'⟩ := ih top (reset s) (reset_inv H mode top s hinv) hh
-      exact ⟨s', top', by simp only [runOps, stepOp, hr], hinv'⟩
 
 end NeoModel.MptRc
